@@ -360,14 +360,23 @@ Proof.
   split; [exact W|]. intros a Ha. exact (alt_walk_per_address resp_state a _ Ha _ _ W).
 Qed.
 
+Lemma ll_alt_ns_thm ts s h s' tr : addr_ok ts -> ll_rep s -> ll_run ts s h = Ok (s', tr) ->
+  no_silent (ll_stations s) (map ll_abs tr) = true ->
+  alt_walk false (ll_stations s) (map ll_abs tr) = Some (ll_stations s').
+Proof.
+  intros Hts R E N. destruct (ll_sim ts s h s' tr Hts R E) as [_ [T [V _]]].
+  rewrite T in *. change (ll_stations s') with (a_bits (ll_view s')). rewrite V.
+  exact (a_alt_strict_ns resp_state true false (ll_h h) (ll_view s) (ll_rep_cur s R) N).
+Qed.
+
 Lemma resp_state_eqb_refl p : resp_state_eqb p p = true.
 Proof. unfold resp_state_eqb. apply Z.eqb_refl. Qed.
 
 Lemma ll_evs_match_thm ts s h s' tr : addr_ok ts -> ll_rep s -> ll_run ts s h = Ok (s', tr) ->
-  evs_matchb resp_state_eqb (map ll_abs tr) = true.
+  evs_matchb resp_state_eqb true (map ll_abs tr) = true.
 Proof.
   intros Hts R E. destruct (ll_sim ts s h s' tr Hts R E) as [_ [T _]]. rewrite T.
-  exact (a_evs_match resp_state resp_state_eqb resp_state_eqb_refl true false (ll_h h) (ll_view s)).
+  exact (a_evs_match resp_state resp_state_eqb resp_state_eqb_refl true false true (ll_h h) (ll_view s)).
 Qed.
 
 (* --- the environment form: a fixed responder set R, answers are response telegrams,
@@ -526,10 +535,10 @@ Proof.
 Qed.
 
 Lemma sc_evs_match_thm ts s h s' tr : addr_ok ts -> sc_rep s -> sc_run ts s h = Ok (s', tr) ->
-  evs_matchb sc_pay_eqb (map sc_abs tr) = true.
+  evs_matchb sc_pay_eqb false (map sc_abs tr) = true.
 Proof.
   intros Hts R E. destruct (sc_sim ts s h s' tr Hts R E) as [_ [T _]]. rewrite T.
-  exact (a_evs_match sc_pay sc_pay_eqb sc_pay_eqb_refl false true (sc_h h) (sc_view s)).
+  exact (a_evs_match sc_pay sc_pay_eqb sc_pay_eqb_refl false true false (sc_h h) (sc_view s)).
 Qed.
 
 (* the environment form: D a = Some (ident, master) for the DP peripherals on the bus; they
@@ -701,16 +710,16 @@ Proof. intros a _. apply Z.testbit_0_l. Qed.
 (* every oracle the check runs on the implementation's transcript is a theorem of the model's *)
 Lemma ll_oracle_sound ts h s' tr : addr_ok ts -> ll_run ts ll_new h = Ok (s', tr) ->
   cursor_walk 0 false (map ll_abs tr) = true /\
-  evs_matchb resp_state_eqb (map ll_abs tr) = true /\
+  evs_matchb resp_state_eqb true (map ll_abs tr) = true /\
   alt_walk true 0 (map ll_abs tr) = Some (ll_stations s') /\
-  (no_other (map ll_abs tr) = true -> alt_walk false 0 (map ll_abs tr) = Some (ll_stations s')) /\
+  (no_silent 0 (map ll_abs tr) = true -> alt_walk false 0 (map ll_abs tr) = Some (ll_stations s')) /\
   forall n fuel, snd (converge_scan resp_state_eqb false n fuel [] (map ll_abs tr) (O, O)) = O.
 Proof.
   intros Hts E. pose proof ll_new_rep as R.
   split; [exact (ll_cursor_thm ts ll_new h s' tr Hts R E)|].
   split; [exact (ll_evs_match_thm ts ll_new h s' tr Hts R E)|].
   split; [exact (ll_alt_o1_thm ts ll_new h s' tr Hts R E)|].
-  split; [intros N; exact (proj1 (ll_alt_thm ts ll_new h s' tr Hts R E N))|].
+  split; [intros N; exact (ll_alt_ns_thm ts ll_new h s' tr Hts R E N)|].
   intros n fuel. destruct (ll_sim ts ll_new h s' tr Hts R E) as [_ [T _]]. rewrite T.
   exact (a_converge_scan_ok resp_state resp_state_eqb resp_state_eqb_refl true false false n (ll_view ll_new)
            (ll_rep_cur _ R) (hi_clear_zero _ _) ltac:(discriminate) fuel [] (ll_h h) (O, O) eq_refl).
@@ -718,7 +727,7 @@ Qed.
 
 Lemma sc_oracle_sound ts h s' tr : addr_ok ts -> sc_run ts sc_new h = Ok (s', tr) ->
   cursor_walk 0 false (map sc_abs tr) = true /\
-  evs_matchb sc_pay_eqb (map sc_abs tr) = true /\
+  evs_matchb sc_pay_eqb false (map sc_abs tr) = true /\
   alt_walk false 0 (map sc_abs tr) = Some (sc_stations s') /\
   forall n fuel, snd (converge_scan sc_pay_eqb true n fuel [] (map sc_abs tr) (O, O)) = O.
 Proof.
